@@ -286,12 +286,14 @@ class Vector():
 	def _compute_fingerprint_full(self) -> int:
 		P = self._FP_P
 		B = self._FP_B
-		total = 0
+		# (seeded with the length: leading cells whose hash is 0 - and a vector cell replaced
+		# by a longer one of such cells - must not vanish)
+		total = len(self._underlying)
 		for x in self._underlying:
 			# Element hashes are scrambled before they enter the polynomial: small ints hash
 			# to themselves, and the bare sum was linear in them - one write of [a + 1, b - B]
 			# over [a, b] (cells of one table row likewise) left the fingerprint as it was
-			h = self._hash_element(x) & 0xFFFFFFFFFFFFFFFF
+			h = (self._hash_element(x) + 0x9E3779B97F4A7C15) & 0xFFFFFFFFFFFFFFFF
 			h = ((h ^ (h >> 30)) * 0xBF58476D1CE4E5B9) & 0xFFFFFFFFFFFFFFFF
 			h = ((h ^ (h >> 27)) * 0x94D049BB133111EB) & 0xFFFFFFFFFFFFFFFF
 			h ^= h >> 31
